@@ -109,6 +109,16 @@ def suite_msg(ctx):
             admissible = r.service.has_response_data() or not r.data
             if admissible and re_ != 'ok ' + hx(p):
                 s.fail({'site': 'Response.reencode', 'input': p.hex(), 'observed': re_, 'required': 'ok ' + hx(p)})
+        if len(p) <= 2 and (len(p) < 2 or p[1] % 16 == 0):
+            # parsing is a function of the payload alone: the caller edits the object it was given, the same payload is parsed again
+            from .. import declib
+            before = show_resp(r)
+            declib.scramble(r)
+            r2 = Response.from_payload(p)
+            s.evaluations += 1
+            if r2 is r or show_resp(r2) != before:
+                s.fail({'site': 'Response.from_payload', 'input': p.hex(), 'class': 'parsed again after the first object was edited',
+                        'observed': 'same object' if r2 is r else show_resp(r2), 'required': before})
     core.compare(s, lines, core.drv_batch(lines), impl, lambda i, o: o.startswith('valid=1'))
     # request parser
     lines, impl = [], []
